@@ -616,7 +616,8 @@ func Units(tier string) []Unit {
 					b = append(b, 0x87, byte(i%125), 0xbf)
 					b = AppendNum(b, 2, uint32(i*200))
 				}
-				b = append(b, 0x00, 0x98, byte(k), byte(20|(v&3)<<6), byte(20|0x80|(v>>2)<<6), 0x00)
+				// the gradient value goes to CREG[19], the one register no stop list starting at 20 reaches
+				b = append(b, 0x13, 0x98, byte(k), byte(20|(v&3)<<6), byte(20|0x80|(v>>2)<<6), 0x00)
 				b = append(b, 0xc0, 0x70, 0x70, 0x01, 0x90, 0x70, 0x80, 0x90, 0xe1)
 				if !yield(b) {
 					return
